@@ -646,6 +646,9 @@ static void count_op(void)
     }
 }
 
+static void (*invariant_fn)(void);
+static int in_invariant;
+
 void abtmc_pre(const volatile void *addr, unsigned size, int kind)
 {
     if (!abtmc_g.active)
@@ -742,6 +745,17 @@ void abtmc_post(const volatile void *vaddr, unsigned size, int kind, int wrote)
                                                  : "",
                 symname(__builtin_return_address(0), sb, sizeof(sb)));
     }
+    if (wrote && invariant_fn && in_window && !in_invariant) {
+        /* global invariant: evaluated in the state right after every write */
+        in_invariant = 1;
+        invariant_fn();
+        in_invariant = 0;
+    }
+}
+
+void abtmc_set_invariant(void (*fn)(void))
+{
+    invariant_fn = fn;
 }
 
 void abtmc_after_release(const volatile void *addr)
